@@ -46,6 +46,11 @@ type afmReaderModel struct {
 	// num(<text>) instead of a value (provided the library accepts the text): what the reader
 	// does with the number then shows in the result, and a branch on it stops the evaluation
 	symNums map[string]bool
+	// whole: fn is a function that reaches the line loop through helpers of the module (the loop
+	// sits in a helper that is handed the body as a function value): fn is evaluated from entry
+	// to return with a scanner that delivers exactly one line; the iteration is what happens
+	// between the first and the second call of Scan (ext_y7.go: loopOwnerY7)
+	whole bool
 }
 
 // afmLineResult: the outcome of one iteration.
@@ -142,6 +147,7 @@ func (m *afmReaderModel) run(mode *afmMode, line string) afmLineResult {
 	}
 	ev := &ssaEval{c: c, bind: map[ssa.Value]sv{}, mem: map[string]sv{}, arrays: true}
 	delivered := false
+	wholeBase, wholeEnd, wholeWhy := -1, -1, ""
 	mapEntries := func(id string) map[string]sv {
 		out := map[string]sv{}
 		for _, ef := range ev.effects {
@@ -203,7 +209,11 @@ func (m *afmReaderModel) run(mode *afmMode, line string) afmLineResult {
 		case "(*bufio.Scanner).Scan":
 			if !delivered {
 				delivered = true
+				wholeBase = len(ev.effects)
 				return boolV(true), true
+			}
+			if wholeEnd < 0 {
+				wholeEnd, wholeWhy = len(ev.effects), ev.why
 			}
 			return boolV(false), true
 		case "(*bufio.Scanner).Text":
@@ -310,6 +320,28 @@ func (m *afmReaderModel) run(mode *afmMode, line string) afmLineResult {
 		}
 	}
 	m.lastEv = ev
+	if m.whole {
+		ev.makeLists = true // function values handed to helpers are called in place
+		ev.runBlocks(fr, m.fn.Blocks[0], nil, nil)
+		switch {
+		case wholeBase < 0:
+			res.why = "the line loop is not reached: " + ev.why
+		case wholeEnd < 0:
+			res.why = "the iteration cannot be followed to its end: " + ev.why
+			m.lastBase = wholeBase
+		case wholeWhy != "":
+			res.why = "the iteration cannot be followed to its end: " + wholeWhy
+			m.lastBase = wholeBase
+		default:
+			res.ok = true
+			ev.effects = ev.effects[:wholeEnd]
+			m.lastBase = wholeBase
+		}
+		if !res.ok && wholeBase < 0 {
+			m.lastBase = len(ev.effects)
+		}
+		return res
+	}
 	at, from, _ := ev.runBlocks(fr, m.fn.Blocks[0], nil, func(next, from *ssa.BasicBlock) bool { return next == m.H })
 	if at != m.H {
 		res.why = "the line loop is not reached: " + ev.why
@@ -729,6 +761,12 @@ func (c *Ctx) afmWriterEvents(root *ssa.Function) (events []afmEvent, nonConst [
 					}
 				}
 				nonConst = append(nonConst, c.valShape(fa)+" at "+c.pos(call.Pos()))
+				return
+			}
+			if evs, ok := c.afmTableEventsX9(call, f, fa, va); ok {
+				// a constant format whose operands are read out of the current element of a literal
+				// table that is ranged over: one event per element
+				events = append(events, evs...)
 				return
 			}
 			e := afmEvent{format: format, call: call, fn: f, known: true}
